@@ -1,0 +1,12 @@
+//go:build verif
+
+package server
+
+import "github.com/sdcio/data-server/pkg/datastore"
+
+// VerifAddDatastore registers an already constructed datastore with the server.
+func (s *Server) VerifAddDatastore(ds *datastore.Datastore) {
+	s.md.Lock()
+	defer s.md.Unlock()
+	s.datastores[ds.Name()] = ds
+}
